@@ -375,10 +375,8 @@ void nice_socket_queue_send_with_callback (GQueue *send_queue,
     len = MIN (tbs->length - offset, buffer->size - message_offset);
     memcpy (tbs->buf + offset, (guint8 *) buffer->buffer + message_offset, len);
     offset += len;
-    if (message_offset >= len)
-      message_offset -= len;
-    else
-      message_offset = 0;
+    /* The following buffers are queued from their start. */
+    message_offset = 0;
   }
 
   if (io_source && gsock && context && cb && *io_source == NULL) {
